@@ -204,9 +204,7 @@ func c10(tier string) int {
 	}
 	c10Malformed(run, u, gen, la, lb)
 	c10RateLimit(run, u, gen, la, lb)
-	if tier == "thorough" {
-		c10EndToEnd(run, u, gen, la, lb)
-	}
+	c10EndToEnd(run, u, gen, la, lb)
 	for _, c := range []string{"accepted->200", "no-valid-signature->403", "unknown-log->404", "old-size-invalid->400", "stale->409", "root-mismatch->409", "invalid-proof->422", "malformed->400"} {
 		if run.HistGet("expected_answers", c) == 0 {
 			run.Vacuous("answer class %s never exercised", c)
@@ -218,7 +216,7 @@ func c10(tier string) int {
 	run.Set("evaluations", trans+run.Get("malformed_bodies")+run.Get("rate_limit_requests"))
 	run.Set("exhaustive", true)
 	run.Set("rule", fmt.Sprintf("explicit-state BFS where every transition is an HTTP request to the real add-checkpoint handler (built as FeedBastion builds it, behind the same 16 KiB MaxBytesHandler) in front of the real witness behind the real witnessAdapter; states are witness states reached through the endpoint (sizes 0..%d, forks at 0 and 3, both stores); alphabet = the C01 alphabet rendered as request bodies + unknown origin; oracle = wmodel composed with the protocol's status map, 200 bodies verified as cosignature lines over the submitted text, 409 stale bodies compared with the true size; plus malformed bodies and three rate-limit regimes. distinct_nontrivial = distinct (state, expected answer, request)", n))
-	run.Assumption("in-process httptest recorder; the end-to-end TLS/HTTP2 variant runs in the thorough tier")
+	run.Assumption("the search is in process (httptest recorder); a 53-request transition tour (every verdict class in every state along none -> 2 -> 4 -> 6 -> 8) is also sent over a real TLS 1.3 + HTTP/2 reverse connection through the exported FeedBastion and compared, answer by answer, with the in-process handler on a twin witness")
 	return run.Finish()
 }
 
